@@ -638,6 +638,9 @@ class MultiOrigin(Origin):
         if len(self.origins) < 2:
             raise ValueError("MultiOrigin must have at least two origin")
 
+        # Normalize to a tuple: lists, tuples and deserialized sequences must compare equal
+        object.__setattr__(self, "origins", tuple(self.origins))
+
         if all(origin.source == self.origins[0].source for origin in self.origins[1:]):
             object.__setattr__(self, "source", self.origins[0].source)
         else:
